@@ -33,11 +33,11 @@ ASSUMPTIONS = [
     "exceptions raised by the pass are rejections",
 ]
 TIERS = {
-    "quick": {"shards": 16, "cases": 220, "timeout": 600},
+    "quick": {"shards": 16, "cases": 500, "timeout": 600},
     "thorough": {"shards": 16, "cases": 6000, "timeout": 7200},
 }
 FLOORS = {
-    "quick": {"programs": 1500, "elements_compared": 100000, "distinct_nontrivial": 150, "bursts_observed": 20000, "cases_with_loops": 200, "cases_dynamic": 200, "cases_offset": 200},
+    "quick": {"programs": 1500, "elements_compared": 100000, "distinct_nontrivial": 150, "bursts_observed": 20000, "cases_with_loops": 200, "cases_dynamic": 200, "cases_offset": 200, "cases_unit-dims": 200},
     "thorough": {"programs": 40000, "elements_compared": 3000000, "distinct_nontrivial": 400},
 }
 
@@ -147,6 +147,21 @@ def desc_of(base, shape, spec, elsize):
 
 
 def gen_case(rng):
+    if rng.random() < 0.12:
+        # equal steps in different dimensions: unit bounds (possibly only known at run time) next to a real dimension
+        rank = rng.choice([2, 2, 3])
+        shape = [1] * rank
+        for d in rng.sample(range(rank), rng.choice([1, 1, 2]) if rank == 3 else 1):
+            shape[d] = rng.choice([2, 3, 4, 6, 8])
+        el, elsize = rng.choice(ELTYPES)
+        pair = rng.choice([("strided", "strided"), ("strided", "strided"), ("strided", "none"), ("none", "strided")])
+        dynamic = rng.random() < 0.85
+        tb = [[n] for n in shape]
+        # static (permuted / padded) strides, dynamic sizes: the compiler cannot tell which dimension is the unit one
+        src = gen_layout(rng, shape, tb, pair[0], False)
+        dst = gen_layout(rng, shape, tb, pair[1], False)
+        dyn_dims = ([d for d in range(rank) if rng.random() < 0.9] or [0]) if dynamic else []
+        return {"shape": shape, "el": el, "elsize": elsize, "src": src, "dst": dst, "dyn_dims": dyn_dims, "class": "unit-dims"}
     rank = rng.choice([1, 2, 2, 3])
     shape = gen_shape(rng, rank)
     el, elsize = rng.choice(ELTYPES)
@@ -297,6 +312,8 @@ def run_case(case, res):
         R.bump(res, "cases_with_2d_transfer")
     if case["dyn_dims"]:
         R.bump(res, "cases_dynamic")
+    if case.get("class"):
+        R.bump(res, "cases_" + case["class"])
     if case["src"].get("offset") or case["dst"].get("offset"):
         R.bump(res, "cases_offset")
     if case["src"].get("dyn_offset") or case["dst"].get("dyn_offset"):
